@@ -217,16 +217,19 @@ def check_repr(c):
 
 
 def gen_world_affine(rng: random.Random, tier: str):
-    for _ in range(_n(tier, 20, 400, 60)):
+    for _ in range(_n(tier, 30, 600, 90)):
         d = rng.choice([2, 3])
-        src = small_grid(rng, d, 4, 8)
-        yield {"src": src, "a": rng.choice(AX), "seed": rng.randrange(1 << 30),
+        src = small_grid(rng, d, 5, 9)
+        tgt = small_grid(rng, d, 3, 6)          # independent rotation and anisotropy
+        yield {"src": src, "tgt": tgt, "a": rng.choice(AX), "seed": rng.randrange(1 << 30),
                "A": [[round(rng.uniform(-0.05, 0.05), 4) for _ in range(d)] for _ in range(d)],
-               "t": [round(rng.uniform(-0.3, 0.3), 3) for _ in range(d)], "shrink": round(rng.uniform(0.4, 0.8), 2)}
+               "t": [round(rng.uniform(-0.3, 0.3), 3) for _ in range(d)], "shrink": round(rng.uniform(0.3, 0.6), 2),
+               "same_frame": rng.random() < 0.3}
 
 
 def check_world_affine(c):
-    """a world-affine field resampled on a grid inside the source domain is the same world-affine field"""
+    """a world-affine field resampled on ANY grid inside the source domain (other rotation, anisotropy, convention)
+    is the same world-affine field, whatever representation it is stored in"""
     gs = gen.make_grid(c["src"])
     d = gs.ndim
     A = torch.tensor(c["A"], dtype=torch.float64)
@@ -234,14 +237,30 @@ def check_world_affine(c):
     xw = gs.points(Axes.WORLD, dtype=torch.float64)
     u = (xw @ A.T + t).movedim(-1, 0).float().unsqueeze(0)
     f = FlowFields(u, gs, Axes.WORLD).axes(Axes(c["a"]))
-    gt = Grid(size=gs.size(), center=gs.center(), spacing=gs.spacing() * c["shrink"], direction=gs.direction(),
-              align_corners=not gs.align_corners())
-    out = f.sample(gt).axes(Axes.WORLD).tensor()[0]
+    if c["same_frame"]:
+        gt = Grid(size=gs.size(), center=gs.center(), spacing=gs.spacing() * c["shrink"], direction=gs.direction(),
+                  align_corners=not gs.align_corners())
+    else:
+        g0 = gen.make_grid(c["tgt"])
+        ext_src = float((gs.spacing() * torch.tensor([float(n) for n in gs.size()])).min())
+        ext_tgt = float((g0.spacing() * torch.tensor([float(n) for n in g0.size()])).max())
+        gt = Grid(size=g0.size(), center=gs.center(), spacing=g0.spacing() * (c["shrink"] * ext_src / ext_tgt / d ** 0.5),
+                  direction=g0.direction(), align_corners=g0.align_corners())
+    res = f.sample(gt)
+    if res.axes() is not Axes(c["a"]):
+        return ("C10:sample:axes-label", f"resampled field has axes {res.axes()}")
+    out = res.axes(Axes.WORLD).tensor()[0]
     yw = gt.points(Axes.WORLD, dtype=torch.float64)
     want = (yw @ A.T + t).movedim(-1, 0)
+    idx = gs.world_to_index(yw, decimals=None).double()
+    n0 = torch.tensor([float(v) for v in gs.size()], dtype=torch.float64)
+    inside = ((idx >= 0) & (idx <= n0 - 1)).all(-1)
+    if inside.sum() == 0:
+        return None
     scale = max(1.0, float(xw.abs().max()))
-    if (out.double() - want).abs().max() > 5e-4 * scale:
-        return (f"C10:sample:world-affine:{c['a']}", f"resampled field off by {(out.double() - want).abs().max():.3e}")
+    err = (out.double() - want).abs()[:, inside].max().item()
+    if err > 5e-4 * scale:
+        return (f"C10:sample:world-affine:{c['a']}", f"resampled field off by {err:.3e} (max |u| {float(want.abs().max()):.3e})")
     return None
 
 
